@@ -136,7 +136,8 @@ pub fn view(map: &MemoryMap, offset: usize, item: &Item) -> Result<(usize, usize
             let words: &[u64] = v.as_ref();
             let same = m.len() == v.len() && m.is_empty() == v.is_empty() && m.count_ones() == v.count_ones() && (0..v.len()).all(|i| m.bit(i) == v.bit(i))
                 && (0..words.len()).all(|i| m.word(i) == words[i]) && !m.is_mutable()
-                && (0..v.len().saturating_sub(17)).step_by(7).all(|i| unsafe { m.int(i, 17) == v.int(i, 17) });
+                && (0..v.len().saturating_sub(17)).step_by(7).all(|i| unsafe { m.int(i, 17) == v.int(i, 17) })
+                && (0..v.len().saturating_sub(64)).step_by(13).all(|i| unsafe { m.int(i, 64) == v.int(i, 64) && m.int(i, 1) == v.int(i, 1) && m.int(i, 0) == 0 && m.int(i, 63) == v.int(i, 63) });
             Ok((m.map_offset(), m.map_len(), same))
         },
         Item::Int(v) => {
